@@ -205,7 +205,43 @@ statechart:
 '''
 
 
+def rewrite_case(acc, rnd):
+    """The same path is exported to twice (a document of the same size; the file's timestamps are put back, as cp -p, rsync or a
+    version-control checkout do): what is imported is what the file holds now."""
+    import tempfile
+    from sismic.model import BasicState, CompoundState, Statechart, Transition
+    names = rnd.sample(['b', 'c', 'd', 'e'], 2)
+
+    def make(target):
+        sc = Statechart('rw')
+        sc.add_state(CompoundState('root', initial='a'), None)
+        for n in ['a'] + sorted(names):
+            sc.add_state(BasicState(n), 'root')
+        sc.add_transition(Transition('a', target, event='go'))
+        return sc
+    os.makedirs(os.path.join(VERIF_DIR, '.work'), exist_ok=True)
+    fd, fp = tempfile.mkstemp(prefix='c11-rw-', suffix='.yaml', dir=os.path.join(VERIF_DIR, '.work'))
+    os.close(fd)
+    try:
+        export_to_yaml(make(names[0]), filepath=fp)
+        st = os.stat(fp)
+        first = import_from_yaml(filepath=fp)
+        export_to_yaml(make(names[1]), filepath=fp)
+        same_size = os.stat(fp).st_size == st.st_size
+        os.utime(fp, ns=(st.st_atime_ns, st.st_mtime_ns))
+        second = import_from_yaml(filepath=fp)
+    finally:
+        os.unlink(fp)
+    acc.count('same_path_rewritten' + ('_same_size' if same_size else ''))
+    got = [(t.source, t.target) for t in second.transitions]
+    if [(t.source, t.target) for t in first.transitions] != [('a', names[0])] or got != [('a', names[1])]:
+        acc.violation('C11:file-roundtrip-stale', 'a statechart with transition a->%s was exported to a path that held an earlier export '
+                      '(a->%s, same size, same timestamps); import_from_yaml(filepath=...) gave %r' % (names[1], names[0], got), {})
+
+
 def run_case(acc, rnd, tier, case):
+    if case % 50 == 17:
+        return rewrite_case(acc, rnd)
     if rnd.random() < 0.05:
         # a valid document carrying a %YAML directive was imported earlier in this process: no state may survive in the io layer
         import_from_yaml(Y11)
